@@ -4,7 +4,7 @@ META = {
     'level': 'exploration',
     'rule': ('Random histories (length <= 8 quick / <= 15 thorough) of run_tasks(subset, bust_cache?), '
              'uncache_tasks(subset), is_cached, cached_tasks - 30 % of the runs with failing tasks, whose stored entries must stay exactly as they were - over a universe of 3-8 dependent tasks of types {Pickle '
-             'cache, JSON cache, cache=None, max_parallel=1} x storage {LocalStorage, str path, fsspec-local, '
+             'cache, JSON cache, cache=None, max_parallel=1} x storage {LocalStorage, str path, pathlib.Path, fsspec-local, '
              'fsspec-memory (serial), storage=None} x backend {serial mostly, fork, spawn}. After every operation the '
              'observable state (is_cached of every universe task, key set behind cached_tasks, returned values, set '
              'of executed tasks from start events) is compared with a plain dict model {task -> generation-stamped '
@@ -72,7 +72,7 @@ def run_history(rep, case):
             return labtech.Lab(storage=make_storage(skind, store), runner_backend=backend, max_workers=case.get('max_workers'),
                                context={})
         lab = mklab()
-        inspect = make_storage('local' if skind == 'pathstr' else skind, store)
+        inspect = make_storage('local' if skind in ('pathstr', 'pathobj') else skind, store)
         persists = skind != 'null'
         cache = {}
         gen = 0
@@ -139,7 +139,13 @@ def run_history(rep, case):
                 _AUDIT['writes'] = []
                 _AUDIT['armed'] = not persists
                 try:
-                    res = lab.run_tasks([b.inst(n) for n in sub], bust_cache=bust, disable_progress=True, disable_top=True)
+                    if len(sub) == 1 and not failing and case.get('use_run_task'):
+                        # the single-task convenience API
+                        one_t = b.inst(sub[0])
+                        res = {one_t: lab.run_task(one_t, bust_cache=bust, disable_progress=True, disable_top=True)}
+                        rep.count('run_task_calls')
+                    else:
+                        res = lab.run_tasks([b.inst(n) for n in sub], bust_cache=bust, disable_progress=True, disable_top=True)
                 except BaseException as ex:   # noqa
                     _AUDIT['armed'] = False
                     bad.append((f'run-raised:{type(ex).__name__}', f'op {i} {op}: run_tasks raised {type(ex).__name__}: {ex}'))
@@ -204,10 +210,10 @@ def run_shard(rep):
         spec = gen_spec(rng, nmax=rng.choice([3, 5, 8]), types=TYPES, shape=rng.choice([None, 'layered', 'diamond', 'chain']))
         names = list(spec['tasks'])
         backend = rng.choice(['serial'] * 8 + ['fork', 'spawn'])
-        skinds = ['local', 'pathstr', 'fsspec-local', 'null'] + (['fsspec-memory'] if backend == 'serial' else [])
+        skinds = ['local', 'pathstr', 'pathobj', 'fsspec-local', 'null'] + (['fsspec-memory'] if backend == 'serial' else [])
         case = {'spec': spec, 'ops': gen_history(rng, names, cfg['maxlen'] if backend == 'serial' else 5),
                 'storage': rng.choice(skinds), 'backend': backend, 'max_workers': rng.choice([1, 2, None]),
-                'fresh_lab': rng.random() < 0.3, 'reuse': rng.random() < 0.5}
+                'fresh_lab': rng.random() < 0.3, 'reuse': rng.random() < 0.5, 'use_run_task': rng.random() < 0.5}
         bad = run_history(rep, case)
         nruns = sum(1 for o in case['ops'] if o[0] == 'run')
         rep.case([json.dumps(spec, sort_keys=True), case['ops'], case['storage'], backend],
